@@ -17,6 +17,9 @@ pub struct Case {
     pub codes: Codes,
     /// rows and per-plane paddings of the source frame (None: one row, no padding)
     pub layout: Option<(usize, [(usize, usize); 3])>,
+    /// a second frame (same storage type, config differing in matrix / range / depth) whose round trip is interleaved
+    /// with this one: decode A, decode B, encode A, encode B
+    pub partner: Option<Box<Case>>,
 }
 impl Case {
     pub fn expand(&self) -> Vec<[u16; 3]> {
@@ -38,6 +41,34 @@ impl Case {
         }
     }
     fn json_with(&self, codes: &[[u16; 3]]) -> Value {
+        let mut v = self.json_plain(codes);
+        if let Some(p) = &self.partner {
+            v["partner"] = p.json_plain(&p.expand());
+        }
+        v
+    }
+    fn from_json(v: &Value) -> Result<Case, String> {
+        let cfg = cfg_from_json(v.get("cfg").ok_or("cfg")?).ok_or("bad cfg")?;
+        let codes = match v.get("seeded") {
+            Some(sd) => Codes::Seeded {
+                stratum: sd.get("stratum").and_then(|x| x.as_u64()).ok_or("stratum")? as u8,
+                seed: sd.get("seed").and_then(|x| x.as_str()).and_then(|x| x.parse().ok()).ok_or("seed")?,
+                n: sd.get("n").and_then(|x| x.as_u64()).ok_or("n")? as usize,
+            },
+            None => Codes::Explicit(serde_json::from_value(v.get("codes").ok_or("codes")?.clone()).map_err(|e| e.to_string())?),
+        };
+        Ok(Case {
+            cfg,
+            u8_storage: v.get("storage").and_then(|s| s.as_str()) == Some("u8"),
+            codes,
+            layout: v.get("layout").and_then(|l| serde_json::from_value(l.clone()).ok()).flatten(),
+            partner: match v.get("partner") {
+                Some(p) => Some(Box::new(Case::from_json(p)?)),
+                None => None,
+            },
+        })
+    }
+    fn json_plain(&self, codes: &[[u16; 3]]) -> Value {
         if codes.len() > 4096 {
             if let Codes::Seeded { stratum, seed, n } = &self.codes {
                 return json!({"prop":"C08","cfg":cfg_json(&self.cfg),"storage": if self.u8_storage {"u8"} else {"u16"},
@@ -49,15 +80,38 @@ impl Case {
 }
 
 pub fn strategy() -> BoxedStrategy<Case> {
-    (std_matrix(), any::<bool>(), depth_storage(), 0u8..6, any::<u64>(), 1usize..=256)
-        .prop_map(|(mc, full, (depth, u8s), stratum, seed, n)| Case {
-            cfg: cfg(mc, TC::BT1886, CP::BT709, depth, full, (0, 0)),
-            u8_storage: u8s,
-            codes: Codes::Seeded { stratum, seed, n },
-            layout: {
-                let (_, h, pads) = crate::gen::layout_for(seed, n);
-                Some((h, pads))
-            },
+    (std_matrix(), any::<bool>(), depth_storage(), 0u8..7, any::<u64>(), 1usize..=256)
+        .prop_map(|(mc, full, (depth, u8s), stratum, seed, n)| {
+            let c = cfg(mc, TC::BT1886, CP::BT709, depth, full, (0, 0));
+            // one case in four: a pair of interleaved round trips
+            let mut e = Expand(seed ^ 0x0808);
+            let partner = if e.below(4) == 0 {
+                let mut pc = c;
+                match e.below(4) {
+                    0 => pc.matrix_coefficients = *e.pick(&STD_MC),
+                    1 => pc.full_range = !pc.full_range,
+                    2 if !u8s => pc.bit_depth = 8 + e.below(9) as u8,
+                    _ => {
+                        pc.matrix_coefficients = *e.pick(&STD_MC);
+                        pc.full_range = e.below(2) == 0;
+                    }
+                }
+                let pn = if e.below(2) == 0 { n } else { 1 + e.below(64) as usize };
+                let ps = e.next_u64();
+                Some(Box::new(Case { cfg: pc, u8_storage: u8s, codes: Codes::Seeded { stratum: e.below(6) as u8, seed: ps, n: pn }, layout: Some((crate::gen::layout_for(ps, pn).1, [(0, 0); 3])), partner: None }))
+            } else {
+                None
+            };
+            Case {
+                cfg: c,
+                u8_storage: u8s,
+                codes: Codes::Seeded { stratum, seed, n },
+                layout: {
+                    let (_, h, pads) = crate::gen::layout_for(seed, n);
+                    Some((h, pads))
+                },
+                partner,
+            }
         })
         .boxed()
 }
@@ -72,6 +126,29 @@ fn roundtrip_layout<T: Pixel>(c: &YuvConfig, codes: &[[u16; 3]], w: usize, h: us
     let rgb = Rgb::try_from(&yuv).map_err(|e| format!("decode failed: {e:?}"))?;
     let back = Yuv::<T>::try_from((rgb, yuv.config())).map_err(|e| format!("encode failed: {e:?}"))?;
     Ok((codes444(&back), back.config(), back.width(), back.height()))
+}
+
+type Rt = Result<(Vec<[u16; 3]>, YuvConfig, usize, usize), String>;
+
+/// two round trips interleaved: decode A, decode B, encode A, encode B
+fn roundtrip_pair<T: Pixel>(a: &Case, b: &Case) -> (Rt, Rt) {
+    let dec = |k: &Case| -> Result<(Yuv<T>, Rgb), String> {
+        let codes = k.expand();
+        let (w, h, pads) = k.dims(codes.len());
+        let yuv = Yuv::<T>::new(frame444_pads::<T>(&codes, w, h, pads), k.cfg).map_err(|e| format!("Yuv::new rejected a well-formed frame: {e:?}"))?;
+        let rgb = Rgb::try_from(&yuv).map_err(|e| format!("decode failed: {e:?}"))?;
+        Ok((yuv, rgb))
+    };
+    let enc = |d: Result<(Yuv<T>, Rgb), String>| -> Rt {
+        let (yuv, rgb) = d?;
+        let back = Yuv::<T>::try_from((rgb, yuv.config())).map_err(|e| format!("encode failed: {e:?}"))?;
+        Ok((codes444(&back), back.config(), back.width(), back.height()))
+    };
+    let da = dec(a);
+    let db = dec(b);
+    let ra = enc(da);
+    let rb = enc(db);
+    (ra, rb)
 }
 
 /// expected code after the round trip: clamp to the legal range for limited-range data
@@ -89,17 +166,45 @@ pub fn expected(c: &YuvConfig, code: [u16; 3]) -> [u16; 3] {
 }
 
 pub fn check(case: &Case, st: &mut Stats) -> Result<(), Violation> {
+    match &case.partner {
+        None => judge(case, case, None, st),
+        Some(p) => {
+            let (ra, rb) = match catch(|| if case.u8_storage { roundtrip_pair::<u8>(case, p) } else { roundtrip_pair::<u16>(case, p) }) {
+                Ok(r) => r,
+                Err(pn) => (Err(format!("panic: {pn}")), Ok((Vec::new(), p.cfg, 0, 0))),
+            };
+            judge(case, case, Some(ra), st)?;
+            judge(p, case, Some(rb), st)?;
+            st.class("interleaved_pairs", 1);
+            Ok(())
+        }
+    }
+}
+
+/// judge one round trip; `given`: the result when it was already computed as part of an interleaved pair
+fn judge(case: &Case, top: &Case, given: Option<Rt>, st: &mut Stats) -> Result<(), Violation> {
     let codes = case.expand();
     let c = &case.cfg;
+    let interleaved = top.partner.is_some();
     let sig = format!(
         "C08:roundtrip:{}:{}:{}",
         mc_name(c.matrix_coefficients),
         if c.full_range { "full" } else { "limited" },
         if case.u8_storage { "u8" } else { "u16" }
     );
-    let fail = |msg: String, codes: &[[u16; 3]]| Violation { signature: sig.clone(), message: msg, case: case.json_with(codes) };
+    let fail = |msg: String, codes: &[[u16; 3]]| {
+        if interleaved {
+            // an interleaved pair is reported whole
+            Violation { signature: sig.clone(), message: format!("{msg} [in a pair of interleaved round trips: decode A, decode B, encode A, encode B]"), case: top.json_with(&top.expand()) }
+        } else {
+            Violation { signature: sig.clone(), message: msg, case: case.json_with(codes) }
+        }
+    };
     let (w0, h0, pads) = case.dims(codes.len());
-    let res = catch(|| if case.u8_storage { roundtrip_layout::<u8>(c, &codes, w0, h0, pads) } else { roundtrip_layout::<u16>(c, &codes, w0, h0, pads) });
+    let res = match given {
+        Some(r) => Ok(r),
+        None => catch(|| if case.u8_storage { roundtrip_layout::<u8>(c, &codes, w0, h0, pads) } else { roundtrip_layout::<u16>(c, &codes, w0, h0, pads) }),
+    };
     let (back, cfg2, w, h) = match res {
         Err(p) => return Err(fail(format!("panic: {p}"), &codes)),
         Ok(Err(e)) => return Err(fail(e, &codes)),
@@ -130,7 +235,7 @@ pub fn check(case: &Case, st: &mut Stats) -> Result<(), Violation> {
                         Err(_) => false,
                     }
                 };
-                if !bad(*code) {
+                if interleaved || !bad(*code) {
                     return Err(fail(
                         format!("triple #{i} {:?} plane {}: came back as {} (expected {}) only inside this {w0}x{h0} image (paddings {:?}); cfg {}", code, j, back[i][j], want[j], pads, cfg_json(c)),
                         &codes,
@@ -163,13 +268,15 @@ pub fn check(case: &Case, st: &mut Stats) -> Result<(), Violation> {
 
 /// real-size frames (see gen::LARGE_SIZES); as in C01
 fn large_frames(ctx: &Ctx, st: &mut Stats) -> Vec<Violation> {
-    let sizes: Vec<(usize, usize)> = if ctx.light { vec![(256, 128), (257, 255), (521, 511)] } else if ctx.quick() { crate::gen::LARGE_SIZES[..8].to_vec() } else { crate::gen::LARGE_SIZES.to_vec() };
+    let sizes: Vec<(usize, usize)> = if ctx.light { vec![(256, 128), (257, 255), (521, 511)] } else { crate::gen::large_sizes(ctx.quick()) };
     let seed0 = ctx.seed;
-    par_sweep(ctx, st, sizes.len() as u64, |lo, hi, st| {
-        for j in lo..hi {
+    // one job = one size and one depth/storage; its three ranges run back to back on the same thread
+    par_sweep(ctx, st, sizes.len() as u64 * 4, |lo, hi, st| {
+        for jj in lo..hi {
+            let j = jj / 4;
             let (w, h) = sizes[j as usize];
-            let mut k = 0u64;
-            for (depth, u8s) in [(8u8, true), (16, false), (8, false), (10, false)] {
+            let mut k = (jj % 4) * 3;
+            for (depth, u8s) in [[(8u8, true), (16, false), (8, false), (10, false)][(jj % 4) as usize]] {
                 for full in [false, true, false] {
                     let mc = STD_MC[((j + k) % 7) as usize];
                     k += 1;
@@ -178,6 +285,7 @@ fn large_frames(ctx: &Ctx, st: &mut Stats) -> Vec<Violation> {
                         u8_storage: u8s,
                         codes: Codes::Seeded { stratum: [1u8, 5, 0, 3][(k % 4) as usize], seed: mix64(seed0 ^ (j << 8) ^ k), n: w * h },
                         layout: Some((h, [(0, 0), ((k % 3) as usize, 0), (0, (k % 2) as usize)])),
+                        partner: None,
                     };
                     let mut local = Stats::new();
                     local.sample_budget = 0;
@@ -195,12 +303,50 @@ fn large_frames(ctx: &Ctx, st: &mut Stats) -> Vec<Violation> {
     })
 }
 
+/// uniformly tinted frames of power-of-two sizes: both chroma planes constant at extreme / neutral values, luma
+/// random - whole-plane statistics (sums that wrap, "is this frame grey" shortcuts) are extreme exactly there
+fn tinted_frames(ctx: &Ctx, st: &mut Stats) -> Vec<Violation> {
+    if ctx.light {
+        return Vec::new();
+    }
+    let sizes = crate::gen::pow2_sizes(ctx.quick());
+    let seed0 = ctx.seed;
+    par_sweep(ctx, st, sizes.len() as u64 * 32, |lo, hi, st| {
+        for j in lo..hi {
+            let (w, h) = sizes[(j / 32) as usize];
+            let (depth, u8s) = [(8u8, true), (16, false), (12, false), (10, false)][((j / 8) % 4) as usize];
+            let pattern = j % 8;
+            let case = Case {
+                cfg: cfg(STD_MC[(j % 7) as usize], TC::BT1886, CP::BT709, depth, j % 3 == 0, (0, 0)),
+                u8_storage: u8s,
+                codes: Codes::Seeded { stratum: 6, seed: (mix64(seed0 ^ j ^ 0x71D7) & !7) | pattern, n: w * h },
+                layout: Some((h, [(0, 0); 3])),
+                partner: None,
+            };
+            let mut local = Stats::new();
+            local.sample_budget = 0;
+            if let Err(v) = check(&case, &mut local) {
+                return Some(v);
+            }
+            st.evaluations += 1;
+            st.comparisons += (w * h * 3) as u64;
+            st.nontrivial_by_construction += 1;
+            st.class("tinted_pow2_frames", 1);
+        }
+        None
+    })
+}
+
 pub fn run(ctx: &Ctx, st: &mut Stats) -> Vec<Violation> {
     let mut v = run_proptest(ctx, st, "random", ctx.cases(30_000, 300_000), strategy, check);
     if !v.is_empty() {
         return v;
     }
     v.extend(large_frames(ctx, st));
+    if !v.is_empty() {
+        return v;
+    }
+    v.extend(tinted_frames(ctx, st));
     if !v.is_empty() {
         return v;
     }
@@ -230,7 +376,7 @@ fn exhaustive_8bit(ctx: &Ctx, st: &mut Stats) -> Vec<Violation> {
                     codes.push([y, u, v]);
                 }
             }
-            let case = Case { cfg: cfg(mc, TC::BT1886, CP::BT709, 8, full, (0, 0)), u8_storage: u8s, codes: Codes::Explicit(codes), layout: Some((256, [(0, 0), (0, 0), (y as usize % 4, 0)])) };
+            let case = Case { cfg: cfg(mc, TC::BT1886, CP::BT709, 8, full, (0, 0)), u8_storage: u8s, codes: Codes::Explicit(codes), layout: Some((256, [(0, 0), (0, 0), (y as usize % 4, 0)])), partner: None };
             let mut local = Stats::new();
             local.sample_budget = 0;
             if let Err(v) = check(&case, &mut local) {
@@ -289,7 +435,7 @@ fn plane_sweeps(ctx: &Ctx, st: &mut Stats) -> Vec<Violation> {
                         p[axis] = x as u16;
                         codes.push(p);
                     }
-                    let case = Case { cfg: c, u8_storage: false, codes: Codes::Explicit(codes), layout: None };
+                    let case = Case { cfg: c, u8_storage: false, codes: Codes::Explicit(codes), layout: None, partner: None };
                     let mut local = Stats::new();
                     local.sample_budget = 0;
                     if let Err(v) = check(&case, &mut local) {
@@ -308,6 +454,7 @@ fn plane_sweeps(ctx: &Ctx, st: &mut Stats) -> Vec<Violation> {
                         u8_storage: false,
                         codes: Codes::Seeded { stratum: (chunk % 6) as u8, seed: mix64(seed0 ^ (j << 20) ^ chunk), n: 65536 },
                         layout: Some((128, [(0, 0), (chunk as usize % 3, 0), (0, 0)])),
+                        partner: None,
                     };
                     let mut local = Stats::new();
                     local.sample_budget = 0;
@@ -326,22 +473,7 @@ fn plane_sweeps(ctx: &Ctx, st: &mut Stats) -> Vec<Violation> {
 }
 
 pub fn replay(v: &Value) -> Result<(), String> {
-    let cfg = cfg_from_json(v.get("cfg").ok_or("cfg")?).ok_or("bad cfg")?;
-    let codes = match v.get("seeded") {
-        Some(sd) => Codes::Seeded {
-            stratum: sd.get("stratum").and_then(|x| x.as_u64()).ok_or("stratum")? as u8,
-            seed: sd.get("seed").and_then(|x| x.as_str()).and_then(|x| x.parse().ok()).ok_or("seed")?,
-            n: sd.get("n").and_then(|x| x.as_u64()).ok_or("n")? as usize,
-        },
-        None => Codes::Explicit(serde_json::from_value(v.get("codes").ok_or("codes")?.clone()).map_err(|e| e.to_string())?),
-    };
-    let case = Case {
-        cfg,
-        u8_storage: v.get("storage").and_then(|s| s.as_str()) == Some("u8"),
-        codes,
-        layout: v.get("layout").and_then(|l| serde_json::from_value(l.clone()).ok()).flatten(),
-    };
-    check(&case, &mut Stats::new()).map_err(|v| v.message)
+    check(&Case::from_json(v)?, &mut Stats::new()).map_err(|v| v.message)
 }
 
-pub const RULE: &str = "cases = (matrix in 7 standard, range, depth 8..16, storage, batch of code triples as in C01: 6 strata incl. related neighbours, 1..4 rows, independent per-plane paddings) generated by proptest, plus real-size frames (32768 .. 2 M pixels, rows up to 131080 wide, pixel counts not divisible by 8), plus enumerated 8-bit cube slices (quick: every 13th luma plane; thorough: all 2^24 triples) and per-plane complete sweeps at 9..16 bit; oracle = sample-exact equality with the input clamped to the legal limited range, the only tolerated deviation (full-range chroma 0 -> 1) recognised exactly and counted; non-trivial = batch containing a non-neutral-chroma triple; distinct = by hash of (config, batch)";
+pub const RULE: &str = "cases = (matrix in 7 standard, range, depth 8..16, storage, batch of code triples as in C01: 6 strata incl. related neighbours, 1..4 rows, independent per-plane paddings; one case in four: a pair of frames whose round trips are interleaved - decode A, decode B, encode A, encode B - with configs differing in matrix, range or depth) generated by proptest, plus real-size frames (32768 .. 2 M pixels, rows up to 131080 wide, pixel counts not divisible by 8), plus enumerated 8-bit cube slices (quick: every 13th luma plane; thorough: all 2^24 triples) and per-plane complete sweeps at 9..16 bit; oracle = sample-exact equality with the input clamped to the legal limited range, the only tolerated deviation (full-range chroma 0 -> 1) recognised exactly and counted; non-trivial = batch containing a non-neutral-chroma triple; distinct = by hash of (config, batch)";
